@@ -1,5 +1,5 @@
 (* Run/Main.v — dispatch on the family code (first integer of a case). *)
-From FB Require Import Sem.Base Run.Codec Run.Api Run.Rf Run.Adapters.
+From FB Require Import Sem.Base Run.Codec Run.Api Run.Rf Run.Adapters Run.Tokio.
 Open Scope Z_scope.
 Definition run_case (chk : bool) (l : list Z) : list Z :=
   match l with
@@ -11,6 +11,10 @@ Definition run_case (chk : bool) (l : list Z) : list Z :=
       else if fam =? 3 then run_rf chk t
       else if fam =? 4 then run_chain t
       else if fam =? 5 then run_take chk t
+      else if fam =? 20 then run_apoll chk t
+      else if fam =? 21 then run_apollstep chk t
+      else if fam =? 22 then run_arf chk t
+      else if fam =? 25 then run_arfstep chk t
       else if fam =? 9 then run_rfstep chk t
       else []
   | [] => []
